@@ -65,6 +65,18 @@ def cmask(m): return clist([clist([cbool(bool(b)) for b in r]) for r in m])
 def fr2(a): return [[frac(a[i][0]), frac(a[i][1])] for i in range(len(a))]
 def q4(e): return ctup([cq(frac(v)) for v in e])
 
+def q2f(p): return q2((frac(p[0]), frac(p[1])))
+def cmobj(M):
+    """a Mask2D object as (content, pixel_scales, origin), read from the object"""
+    return f"({cmask(np.array(M).astype(bool))}, {q2f(M.pixel_scales)}, {q2f(M.origin)})"
+def cgobj(G):
+    """a slim Grid2D object as (values, mask object)"""
+    return f"({q2list(fr2(np.array(G)))}, {cmobj(G.mask)})"
+def cm1obj(M):
+    return f"({clist([cbool(bool(b)) for b in np.array(M)])}, {cq(frac(M.pixel_scales[0]))}, {cq(frac(M.origin[0]))})"
+def cg1obj(G):
+    return f"({qlist([frac(v) for v in np.array(G)])}, {cm1obj(G.mask)})"
+
 def tol_of(exact, *mags):
     """0 on the exact stream; else REL * (largest magnitude involved), rounded up to a short dyadic"""
     if exact: return Fraction(0)
@@ -292,6 +304,8 @@ def gen_derived1(rng, exact):
     m = [rng.random() < 0.4 for _ in range(n)]
     if all(m): m[rng.randrange(n)] = False
     yield {"op": "derived1", "exact": exact, "n": n, "s": S(s), "o": S(o), "m": m}
+    yield {"op": "derive1allfalse", "exact": exact, "n": n, "s": S(s), "o": S(o), "m": m}
+    yield {"op": "derive1allfalse", "exact": exact, "n": n, "s": S(s), "o": S(o), "m": [False] * n}
 
 def offsets2(H, W, sy, sx, cy, cx):
     """exact squared-distance ingredients (dy, dx) of every pixel centre (mask origin (0,0)) from the centre (cy, cx)"""
@@ -450,6 +464,7 @@ def gen_inputs(tier, rng):
 # ----------------------------------------------------------------------------- running one case
 def nontrivial(inp):
     if "objs" in inp: return True
+    if inp["op"] == "derive1allfalse": return any(inp["m"])
     if "shape" in inp:
         H, W = inp["shape"]
         return H != W or inp["s"][0] != inp["s"][1] or any(F(v) != 0 for v in inp.get("o", inp.get("c", ["0", "0"])))
@@ -496,6 +511,13 @@ class G2:
         self.hdr = f"{z2(self.sh)} {q2((sy, sx))} {q2((oy, ox))}"
         self.kw = dict(shape_native=self.sh, pixel_scales=self.ps, origin=self.org)
     def g(self, held): return self.geo if held else self.mask.geometry
+    def mobj(self):
+        """the EXPECTED mask object (current content, pixel scales, origin), from the inputs"""
+        return f"({cmask(self.m)}, {q2((self.sy, self.sx))}, {q2((self.oy, self.ox))})"
+    def geo_of(self, held=False):
+        geo = self.g(held)
+        out = f"({z2(geo.shape_native)}, {q2f(geo.pixel_scales)}, {q2f(geo.origin)})"
+        return [f"(KGeoOf {self.mobj()} {out})"], str((geo.shape_native, geo.pixel_scales, geo.origin)), None
     def tol_s(self, *extra):     # scaled units
         return tol_of(self.exact, max(abs(self.oy), abs(self.ox)) + max(self.H, self.W) * max(self.sy, self.sx) + max([abs(F(e)) for e in extra] + [0]))
     def tol_p(self, *extra):     # pixel units
@@ -512,16 +534,18 @@ class G2:
                        (gu.central_pixel_coordinates_2d_from(shape_native=self.sh),
                         gu.central_scaled_coordinate_2d_from(shape_native=self.sh, pixel_scales=self.ps, origin=self.org))):
             outs.append(([frac(a[0]), frac(a[1])], [frac(b[0]), frac(b[1])]))
-        return [f"(KCentral2 {self.hdr} {cq(self.tol_p())} {q2(a)} {q2(b)})" for a, b in outs], str(outs[0]), None
+        return [f"(KCentral2 {self.hdr} {cq(self.tol_p())} {q2(a)} {q2(b)})" for a, b in outs] + self.geo_of(held)[0], str(outs[0]), None
     def extent(self, held=True, fresh_array=True):
         outs = [self.g(held).extent]
         if fresh_array: outs.append(self.aa.Array2D.no_mask(values=np.zeros(self.sh), pixel_scales=self.ps, origin=self.org).geometry.extent)
         return [f"(KExtent2 {self.hdr} {cq(self.tol_s())} {q4(e)})" for e in outs], str(outs[0]), None
     def extentgrid(self, held=True):
         ext = self.g(held).extent
-        grids = [np.array(self.aa.Grid2D.uniform(shape_native=self.sh, pixel_scales=self.ps_pub, origin=self.org)),
-                 np.array(self.mask.derive_grid.all_false)]
-        return [f"(KExtentGrid {self.hdr} {cq(self.tol_s())} {q4(ext)} {q2list(fr2(g))})" for g in grids], str(ext), None
+        objs = [self.aa.Grid2D.uniform(shape_native=self.sh, pixel_scales=self.ps_pub, origin=self.org), self.mask.derive_grid.all_false]
+        terms = [f"(KExtentGrid {self.hdr} {cq(self.tol_s())} {q4(ext)} {q2list(fr2(np.array(g)))})" for g in objs]
+        terms.append(f"(KUniformC {self.hdr} {cq(self.tol_s())} {cgobj(objs[0])})")
+        terms.append(f"(KDeriveAllFalseC {self.mobj()} {cq(self.tol_s())} {cgobj(objs[1])})")
+        return terms, str(ext), None
     def pix(self, c, held=True):
         from autoarray.geometry import geometry_util as gu
         if self.margin_bad([c]): return None
@@ -535,7 +559,9 @@ class G2:
         ok = bool(tuple(snapped) == tuple(back))
         terms = [f"(KPix2 {self.hdr} {q2((F(c[0]), F(c[1])))} {z2((int(o[0]), int(o[1])))})" for o in outs]
         pi = (int(outs[0][0]), int(outs[0][1]))
-        terms.append(f"(KScaled2 {self.hdr} {q2(pi)} {cq(self.tol_s(pi[0] * self.sy, pi[1] * self.sx))} {q2((frac(snapped[0]), frac(snapped[1])))})")
+        tsn = cq(self.tol_s(pi[0] * self.sy, pi[1] * self.sx))
+        terms.append(f"(KScaled2 {self.hdr} {q2(pi)} {tsn} {q2((frac(snapped[0]), frac(snapped[1])))})")
+        terms.append(f"(KSnap {self.hdr} {q2((F(c[0]), F(c[1])))} {tsn} {q2((frac(snapped[0]), frac(snapped[1])))})")
         return terms, str(outs[0]), ok
     def scaled(self, p, held=True):
         from autoarray.geometry import geometry_util as gu
@@ -555,33 +581,53 @@ class G2:
         geo = self.g(held)
         gq = q2list(g)
         arr_in = arr.copy()
+        Gobj = cgobj(G)               # the Grid2D handed in: its values and its OWN mask object
         if kind == "gridpixels":
-            outs = [np.array(geo.grid_pixels_2d_from(grid_scaled_2d=G)), gu.grid_pixels_2d_slim_from(grid_scaled_2d_slim=arr_in, **self.kw)]
+            R = geo.grid_pixels_2d_from(grid_scaled_2d=G)
+            outs = [np.array(R), gu.grid_pixels_2d_slim_from(grid_scaled_2d_slim=arr_in, **self.kw)]
             tol = cq(self.tol_p(*[p[0] / self.sy for p in g], *[p[1] / self.sx for p in g]))
             terms = [f"(KGridPixels {self.hdr} {gq} {tol} {q2list(fr2(o))})" for o in outs]
+            terms.append(f"(KGeoGrid 0 {self.hdr} {Gobj} {tol} {cgobj(R)})")
         elif kind == "gridscaled":
-            outs = [np.array(geo.grid_scaled_2d_from(grid_pixels_2d=G)), gu.grid_scaled_2d_slim_from(grid_pixels_2d_slim=arr_in, **self.kw)]
+            R = geo.grid_scaled_2d_from(grid_pixels_2d=G)
+            outs = [np.array(R), gu.grid_scaled_2d_slim_from(grid_pixels_2d_slim=arr_in, **self.kw)]
             tol = cq(self.tol_s(*[p[0] * self.sy for p in g], *[p[1] * self.sx for p in g]))
             terms = [f"(KGridScaled {self.hdr} {gq} {tol} {q2list(fr2(o))})" for o in outs]
+            terms.append(f"(KGeoGrid 2 {self.hdr} {Gobj} {tol} {cgobj(R)})")
         elif kind == "gridcentres":
-            outs = [np.array(geo.grid_pixel_centres_2d_from(grid_scaled_2d=G)), gu.grid_pixel_centres_2d_slim_from(grid_scaled_2d_slim=arr_in, **self.kw)]
+            R = geo.grid_pixel_centres_2d_from(grid_scaled_2d=G)
+            outs = [np.array(R), gu.grid_pixel_centres_2d_slim_from(grid_scaled_2d_slim=arr_in, **self.kw)]
             terms = [f"(KGridCentres {self.hdr} {gq} {q2list(fr2(o))})" for o in outs]
+            terms.append(f"(KGeoGrid 1 {self.hdr} {Gobj} {cq(0)} {cgobj(R)})")
+            # the native (3-D) routine on the same points, laid out in the container's own native shape (all-false containers only)
+            if not np.array(G.mask).any():
+                h, w = G.mask.shape_native
+                nat_in = arr.reshape(h, w, 2).copy()
+                nat = gu.grid_pixel_centres_2d_from(grid_scaled_2d=nat_in, **self.kw)
+                rows_q = clist([q2list(fr2(nat_in[i])) for i in range(h)])
+                terms.append(f"(KNative3 {self.hdr} {rows_q} {clist([q2list(fr2(nat[i])) for i in range(h)])})")
+                if not same_arr(nat_in, arr.reshape(h, w, 2)): arr_in = None
         else:
-            outs = [np.array(geo.grid_pixel_indexes_2d_from(grid_scaled_2d=G)), gu.grid_pixel_indexes_2d_slim_from(grid_scaled_2d_slim=arr_in, **self.kw)]
+            R = geo.grid_pixel_indexes_2d_from(grid_scaled_2d=G)
+            outs = [np.array(R), gu.grid_pixel_indexes_2d_slim_from(grid_scaled_2d_slim=arr_in, **self.kw)]
             terms = [f"(KGridIndexes {self.hdr} {gq} {qlist([frac(v) for v in o])})" for o in outs]
+            terms.append(f"(KGeoIndexes {self.hdr} {Gobj} ({qlist([frac(v) for v in np.array(R)])}, {cmobj(R.mask)}))")
         # the caller's objects are left as they were: the Grid2D handed to the method, the array handed to the util function
-        ok = same_arr(np.array(G), arr) and same_arr(arr_in, arr)
+        ok = arr_in is not None and same_arr(np.array(G), arr) and same_arr(arr_in, arr)
         return terms, str(outs[0].tolist()), ok
     def gridmask(self, siblings=True):
         """the pixel-centre grid of the CURRENT content of the live mask"""
         from autoarray.structures.grids import grid_2d_util as g2u
         aa, H, W, m = self.aa, self.H, self.W, self.m
         marr = np.array(m, dtype=bool); marr_in = marr.copy()
-        outs = [np.array(aa.Grid2D.from_mask(mask=self.mask)), np.array(self.mask.derive_grid.unmasked),
+        objs = [aa.Grid2D.from_mask(mask=self.mask), self.mask.derive_grid.unmasked]
+        outs = [np.array(objs[0]), np.array(objs[1]),
                 g2u.grid_2d_slim_via_mask_from(mask_2d=marr_in, pixel_scales=self.ps, origin=self.org)]
         tol = cq(self.tol_s())
         s, o = q2((self.sy, self.sx)), q2((self.oy, self.ox))
         terms = [f"(KGridMask {cmask(m)} {s} {o} {tol} {q2list(fr2(ou))})" for ou in outs]
+        terms.append(f"(KFromMaskC {self.mobj()} {tol} {cgobj(objs[0])})")
+        terms.append(f"(KDeriveUnmaskedC {self.mobj()} {tol} {cgobj(objs[1])})")
         ok = same_arr(marr_in, marr) and same_arr(np.array(self.mask), marr)
         if siblings:
             # the all-false grids of the same geometry: Grid2D.uniform, derive_grid.all_false, the native form of from_mask
@@ -610,18 +656,30 @@ class G1:
     def tol_p(self, *extra): return tol_of(self.exact, self.n + 1 + abs(self.o / self.s) + max([abs(F(e)) for e in extra] + [0]))
     def extent_term(self, e): return f"(KExtent1 {self.hdr} {cq(self.tol_s())} {q2((frac(e[0]), frac(e[1])))})"
     def grid_term(self, m, v): return f"(KGrid1Mask {clist([cbool(b) for b in m])} {cq(self.s)} {cq(self.o)} {cq(self.tol_s())} {qlist([frac(x) for x in v])})"
+    def mobj(self): return f"({clist([cbool(b) for b in self.m])}, {cq(self.s)}, {cq(self.o)})"
     def extent(self):
-        e = self.mask.geometry.extent
-        return [self.extent_term(e)], str(e), None
+        geo = self.mask.geometry
+        e = geo.extent
+        gt = f"(KGeoOf1 {self.mobj()} ({cz(geo.shape_native[0])}, {cq(frac(geo.pixel_scales[0]))}, {cq(frac(geo.origin[0]))}))"
+        return [self.extent_term(e), gt], str(e), None
     def gridmask(self):
         from autoarray.structures.grids import grid_1d_util as g1u
         marr = np.array(self.m, dtype=bool); marr_in = marr.copy()
-        outs = [np.array(self.aa.Grid1D.from_mask(mask=self.mask)), g1u.grid_1d_slim_via_mask_from(mask_1d=marr_in, pixel_scales=self.ps, origin=self.org)]
+        G = self.aa.Grid1D.from_mask(mask=self.mask)
+        outs = [np.array(G), g1u.grid_1d_slim_via_mask_from(mask_1d=marr_in, pixel_scales=self.ps, origin=self.org)]
         terms = [self.grid_term(self.m, ou) for ou in outs]
+        terms.append(f"(KFromMask1C {self.mobj()} {cq(self.tol_s())} {cg1obj(G)})")
         return terms, str(outs[0].tolist()), same_arr(marr_in, marr) and same_arr(np.array(self.mask), marr)
     def uniform(self):
-        u = np.array(self.aa.Grid1D.uniform(shape_native=self.sh, pixel_scales=self.ps, origin=self.org))
-        return [self.grid_term([False] * self.n, u)], str(u.tolist()), None
+        from autoarray.structures.grids import grid_1d_util as g1u
+        U = self.aa.Grid1D.uniform(shape_native=self.sh, pixel_scales=self.ps, origin=self.org)
+        u = np.array(U)
+        u2 = g1u.grid_1d_slim_via_shape_slim_from(shape_slim=self.sh, pixel_scales=self.ps, origin=self.org)
+        terms = [self.grid_term([False] * self.n, u), self.grid_term([False] * self.n, u2), f"(KUniform1C {self.hdr} {cq(self.tol_s())} {cg1obj(U)})"]
+        for inv in (False, True):
+            A = self.aa.Mask1D.all_false(shape_slim=self.sh, pixel_scales=self.ps, origin=self.org, invert=inv)
+            terms.append(f"(KAllFalse1C {self.hdr} {cbool(inv)} {cm1obj(A)})")
+        return terms, str(u.tolist()), None
     def edit(self, at, val):
         if val and sum(1 for b in self.m if not b) == 1 and not self.m[at]: return
         self.mask[at] = bool(val); self.m[at] = bool(val)
@@ -740,6 +798,14 @@ def run_case(inp):
         acc.add([], ok=bool(nat.shape == (g1.n,) and all(nat[j] == sl[k] for k, j in enumerate(un)) and all(nat[j] == 0 for j in range(g1.n) if g1.m[j])))
         return done(acc.terms, acc.out, acc.py_ok())
 
+    if op == "derive1allfalse":
+        # Mask1D.derive_grid.all_false: every pixel's centre with the all-false mask.  KNOWN FINDING on masks with a masked pixel
+        # (fixes/C02_derive_grid_1d_all_false.diff): the key is computed from the input alone
+        g1 = G1(aa, inp["n"], inp["s"], inp["o"], exact, m=inp["m"])
+        r = done([f"(KDeriveAllFalse1 {g1.mobj()} {cq(g1.tol_s())} {cg1obj(g1.mask.derive_grid.all_false)})"], "see coq case")
+        if any(inp["m"]): r["finding"] = "derive_grid_1d_all_false_masked"
+        return r
+
     if op in GEOM1_OPS:
         g1 = G1(aa, inp["n"], inp["s"], inp["o"], exact, m=inp.get("m"))
         n, s, o, hdr, sh, ps, org = g1.n, g1.s, g1.o, g1.hdr, g1.sh, g1.ps, g1.org
@@ -776,26 +842,31 @@ def run_case(inp):
         kw = dict(shape_native=sh, pixel_scales=ps, centre=ctr)
         kwp = dict(kw, pixel_scales=ps[0]) if (sy == sx and (H + W) % 2) else dict(kw)      # public entry point: bare float scale
         kwp.update(origin=org, invert=inv)
+        ctail = f"{q2((sy, sx))} {q2((F(inp['origin'][0]), F(inp['origin'][1])))} {cc} {cbool(inv)}"      # pixel_scales origin centre invert
         if op == "circ":
             r = F(inp["r"][0])
             outs = [aa.Mask2D.circular(radius=fl(r), **kwp), mu.mask_2d_circular_from(radius=fl(r), **kw)]
             mk = lambda o: f"(KCirc {hdr} {cq(r)} {cc} {cmask(o)})"
+            mkc = lambda M: f"(KCircC {z2(sh)} {cq(r)} {ctail} {cmobj(M)})"
         elif op == "ann":
             a, b = F(inp["r"][0]), F(inp["r"][1])
             outs = [aa.Mask2D.circular_annular(inner_radius=fl(a), outer_radius=fl(b), **kwp),
                     mu.mask_2d_circular_annular_from(inner_radius=fl(a), outer_radius=fl(b), **kw)]
             mk = lambda o: f"(KAnn {hdr} {cq(a)} {cq(b)} {cc} {cmask(o)})"
+            mkc = lambda M: f"(KAnnC {z2(sh)} {cq(a)} {cq(b)} {ctail} {cmobj(M)})"
         elif op == "anti":
             a, b, c3 = (F(v) for v in inp["r"])
             outs = [aa.Mask2D.circular_anti_annular(inner_radius=fl(a), outer_radius=fl(b), outer_radius_2=fl(c3), **kwp),
                     mu.mask_2d_circular_anti_annular_from(inner_radius=fl(a), outer_radius=fl(b), outer_radius_2_scaled=fl(c3), **kw)]
             mk = lambda o: f"(KAnti {hdr} {cq(a)} {cq(b)} {cq(c3)} {cc} {cmask(o)})"
+            mkc = lambda M: f"(KAntiC {z2(sh)} {cq(a)} {cq(b)} {cq(c3)} {ctail} {cmobj(M)})"
         elif op == "ell":
             R, q, ang, co, si = (F(v) for v in inp["ell"][0])
             check_cs(ang, co, si)
             outs = [aa.Mask2D.elliptical(major_axis_radius=fl(R), axis_ratio=fl(q), angle=fl(ang), **kwp),
                     mu.mask_2d_elliptical_from(major_axis_radius=fl(R), axis_ratio=fl(q), angle=fl(ang), **kw)]
             mk = lambda o: f"(KEll {hdr} {cq(R)} {cq(q)} {q2((co, si))} {cc} {cmask(o)})"
+            mkc = lambda M: f"(KEllC {z2(sh)} {cq(R)} {cq(q)} {q2((co, si))} {ctail} {cmobj(M)})"
         else:
             (Ri, qi, ai, ci, si_), (Ro, qo, ao, co, so) = [[F(v) for v in e] for e in inp["ell"]]
             check_cs(ai, ci, si_); check_cs(ao, co, so)
@@ -803,10 +874,14 @@ def run_case(inp):
                       outer_major_axis_radius=fl(Ro), outer_axis_ratio=fl(qo), outer_phi=fl(ao))
             outs = [aa.Mask2D.elliptical_annular(**k2, **kwp), mu.mask_2d_elliptical_annular_from(**k2, **kw)]
             mk = lambda o: f"(KEllAnn {hdr} {cq(Ri)} {cq(qi)} {q2((ci, si_))} {cq(Ro)} {cq(qo)} {q2((co, so))} {cc} {cmask(o)})"
+            mkc = lambda M: f"(KEllAnnC {z2(sh)} {cq(Ri)} {cq(qi)} {q2((ci, si_))} {cq(Ro)} {cq(qo)} {q2((co, so))} {ctail} {cmobj(M)})"
         pub = outs[0]
         ok = bool(tuple(pub.origin) == org and tuple(pub.pixel_scales) == ps and tuple(pub.shape_native) == sh)
         pubm = np.array(pub).astype(bool)
         terms = [mk(~pubm if inv else pubm), mk(np.array(outs[1]).astype(bool))]       # invert=True: the complement
+        terms.append(mkc(pub))                                                          # the object as returned (content, pixel scales, origin)
+        af = aa.Mask2D.all_false(shape_native=sh, pixel_scales=kwp["pixel_scales"], origin=org, invert=inv)
+        terms.append(f"(KAllFalseC {z2(sh)} {q2((sy, sx))} {q2((F(inp['origin'][0]), F(inp['origin'][1])))} {cbool(inv)} {cmobj(af)})")
         # the pixel-centre grid of the constructed mask is placed with the mask's origin
         gt = G2(aa, sh, (sy, sx), (F(inp["origin"][0]), F(inp["origin"][1])), exact, m=pubm.tolist())
         gt.mask = pub; gt.geo = pub.geometry
